@@ -1883,12 +1883,12 @@ static PyObject* pbtrs(PyObject *self, PyObject *args, PyObject *kwrds)
 
 #if PY_MAJOR_VERSION >= 3
     if (!PyArg_ParseTupleAndKeywords(args, kwrds, "OO|Ciiiiiii", kwlist,
-        &A, &B, &uplo_, &n, &kd, &nrhs, &ldA, &ldB, &oA, oB))
+        &A, &B, &uplo_, &n, &kd, &nrhs, &ldA, &ldB, &oA, &oB))
         return NULL;
     uplo = (char) uplo_;
 #else
     if (!PyArg_ParseTupleAndKeywords(args, kwrds, "OO|ciiiiiii", kwlist,
-        &A, &B, &uplo, &n, &kd, &nrhs, &ldA, &ldB, &oA, oB))
+        &A, &B, &uplo, &n, &kd, &nrhs, &ldA, &ldB, &oA, &oB))
         return NULL;
 #endif
 
@@ -1977,12 +1977,12 @@ static PyObject* pbsv(PyObject *self, PyObject *args, PyObject *kwrds)
 
 #if PY_MAJOR_VERSION >= 3
     if (!PyArg_ParseTupleAndKeywords(args, kwrds, "OO|Ciiiiiii", kwlist,
-        &A, &B, &uplo_, &n, &kd, &nrhs, &ldA, &ldB, &oA, oB))
+        &A, &B, &uplo_, &n, &kd, &nrhs, &ldA, &ldB, &oA, &oB))
         return NULL;
     uplo = (char) uplo_;
 #else
     if (!PyArg_ParseTupleAndKeywords(args, kwrds, "OO|ciiiiiii", kwlist,
-        &A, &B, &uplo, &n, &kd, &nrhs, &ldA, &ldB, &oA, oB))
+        &A, &B, &uplo, &n, &kd, &nrhs, &ldA, &ldB, &oA, &oB))
         return NULL;
 #endif
 
